@@ -166,6 +166,8 @@ inductive Op where
   | clearLoc (t : Nat) | switchLoc (tin tout : Nat)
   | addSamples (nadd : Int) (val : Val) | delSample (i : Int)
   | setArray (iech u : Int) (val : Val)
+  | setRow (iech : Int) (vals : List Val)     -- setArrayBySample: one value per column, in column order
+  | getRow (iech : Int) (seen : List Val)     -- getArrayBySample: reads only (`seen` = what the caller read)
 deriving Repr
 
 /-- `deleteColumnByUID` -/
@@ -256,6 +258,45 @@ def step (s : State) : Op → Option State
     let c := colOfUid s u
     if !(0 ≤ iech && iech < (s.nech : Int)) || c < 0 then some s else
     some { s with cols := s.cols.modify c.toNat (fun col => col.set iech.toNat val) }
+  | .setRow iech vals =>
+    -- `setArrayBySample`: the live uids in increasing order are the columns in order; sizes must match
+    if vals.length ≠ ncol s || !(0 ≤ iech && iech < (s.nech : Int)) then some s else
+    some { s with cols := (s.cols.zip vals).map (fun (cv : List Val × Val) => cv.1.set iech.toNat cv.2) }
+  | .getRow _ _ => some s
+
+/-- `getArrayBySample`: the value of every column at one sample, in column order (undefined when the
+sample does not exist) -/
+def readRow (s : State) (iech : Int) : List Val :=
+  if 0 ≤ iech && iech < (s.nech : Int) then s.cols.map (fun col => (col[iech.toNat]?).getD none)
+  else s.cols.map (fun _ => none)
+
+/-- the cells `(column, sample)` a value assignment is entitled to change, with the value each must
+hold afterwards (`none` for operations that are not value assignments) -/
+def written (s : State) : Op → Option (List ((Nat × Nat) × Val))
+  | .setArray iech u val =>
+    if 0 ≤ iech && iech < (s.nech : Int) then
+      let c := colOfUid s u
+      if c < 0 then some [] else some [((c.toNat, iech.toNat), val)]
+    else some []
+  | .setRow iech vals =>
+    if vals.length = ncol s && 0 ≤ iech && iech < (s.nech : Int) then
+      some ((List.range vals.length).zip vals |>.map fun (cv : Nat × Val) => ((cv.1, iech.toNat), cv.2))
+    else some []
+  | .getRow _ _ => some []
+  | _ => none
+
+/-- "untouched cells keep their values, the written ones hold what was written": compares two tables of
+the same shape cell by cell against the list of `written` -/
+def frameOk (before after : State) (w : List ((Nat × Nat) × Val)) : Bool :=
+  before.cols.length == after.cols.length &&
+  (List.range before.cols.length).all fun c =>
+    let b := before.cols.getD c []
+    let a := after.cols.getD c []
+    b.length == a.length &&
+    (List.range b.length).all fun i =>
+      match w.find? (fun e => e.1 == (c, i)) with
+      | some e => a.getD i none == e.2
+      | none => a.getD i none == b.getD i none
 
 /-! ### the consistency invariant (decidable) -/
 
